@@ -61,7 +61,19 @@ def run(rep, tier, root=None):
                 rep.unknown("R0.wrapper-form", f.fq, "unrecognised construct in %s" % nf(val, 200), f.where())
                 continue
             if w.inner.single_atom() != Sym(f.params[0]):
-                rep.unknown("R0.wrapper-form", f.fq, "data is transformed before the shift: %s" % nf(w.inner, 120), f.where())
+                st_ = w.inner.single_term() if isinstance(w.inner, Rat) and w.inner.den_is_one() else None
+                dsym_ = Sym(f.params[0])
+                carriers = [(a_, e_) for a_, e_ in (st_[1] if st_ is not None else ()) if Rat.atom(a_).depends_on(dsym_)]
+                if st_ is not None and len(carriers) == 1 and carriers[0][1] == 1 and \
+                        (carriers[0][0] == dsym_ or (isinstance(carriers[0][0], Fn) and carriers[0][0].name in ("fftshift", "ifftshift", "roll"))):
+                    pre = Rat({tuple(x for x in st_[1] if x[0] != carriers[0][0]): st_[0]})
+                    rep.violation("R3.scale-after-transform", "%s: input multiplied by %s before the transform" % (f.fq, nf(pre, 40)),
+                                  "the input array is multiplied by %s before it is transformed: the product is formed in the input's own "
+                                  "dtype, so an integer image with an integer spacing wraps around (uint8 * 2, int8 * 3, ...) and the "
+                                  "transform pair / Parseval scale no longer hold for such inputs; the scale belongs on the complex result"
+                                  % nf(pre, 60), f.where())
+                else:
+                    rep.unknown("R0.wrapper-form", f.fq, "data is transformed before the shift: %s" % nf(w.inner, 120), f.where())
                 continue
             W[name] = (f, w, sp)
             rep.ok("R0.wrapper-form", f.fq, w.describe())
